@@ -115,6 +115,7 @@ func editSettings(fname string, fn func(s *settings) error) error {
 	if err != nil {
 		return err
 	}
+	verifGate("editSettings:afterRead")
 	if err := fn(settings); err != nil {
 		return err
 	}
